@@ -694,6 +694,28 @@ def evaluate(ctx, r, out, cqm, ref, st):
             fail('ExactCQMSolver.sample_cqm', 'REAL variable', 'a model with a REAL variable was enumerated', f'ExactCQMSolver().sample_cqm(cqm)\nassert False\n')
             return False
         out.append(dict(lines=[f'exact {rat(atol)} {rat(rtol)}'], check=exact_cmp(es0, exc), src=list(src), rows=[]))
+    # the single-sample guard of the per-sample path: any number of rows other than one is a ValueError, from every entry point
+    if r.random() < .12:
+        k = r.choice([0, 2, 3])
+        garr = (np.zeros((k, len(labs)), dtype=np.int8), list(labs))
+        gsrc = f'(np.zeros(({k}, {len(labs)}), dtype=np.int8), {list(labs)!r})'
+
+        def raises_value(f):
+            try:
+                f()
+            except ValueError:
+                return True
+            except Exception:  # noqa
+                return False
+            return False
+        res = [raises_value(lambda: list(cqm.iter_constraint_data(garr))), raises_value(lambda: list(cqm.iter_violations(garr))),
+               raises_value(lambda: cqm.check_feasible(garr, **tol)), raises_value(lambda: cqm.violations(garr))]
+        ctx.tick(f'single-sample guard: {k} rows')
+        if not all(res):
+            fail('CQM.iter_constraint_data', 'not exactly one sample', f'{k} samples given: ValueError expected from iter_constraint_data / iter_violations / check_feasible / violations, raised: {res}',
+                 f'try:\n    cqm.violations({gsrc}); cqm.check_feasible({gsrc})\nexcept ValueError:\n    pass\nelse:\n    assert False, "no ValueError"\n')
+            return False
+        out.append(dict(lines=[f'feasg {k}'], expect='G ' + ''.join(str(int(b)) for b in res[:3]), src=list(src), rows=[]))
     # the first branch of from_samples_cqm: an argument of length 0 (no rows given as a list / array; for a model without
     # variables also ONE sample given as an empty dict — `len({}) == 0` — recorded as coded)
     if r.random() < .12:
